@@ -105,6 +105,7 @@ type boundaryCase struct {
 	N      int
 	Kind   string // qc | tc | aggqc
 	K      int    // number of distinct valid signatures in the certificate
+	Pad    int    // further signer labels without a signature behind them (BLS: bits in the participants field; ECDSA/EdDSA: entries without bytes); an aggregate certificate lists no message for them
 }
 
 // TestC20CertBoundary: q-1 distinct valid signatures are refused and q accepted by every certificate check.
@@ -123,8 +124,16 @@ func TestC20CertBoundary(t *testing.T) {
 						if k == n && n == q {
 							continue
 						}
-						if !yield(boundaryCase{s, n, kind, k}) {
+						if !yield(boundaryCase{s, n, kind, k, 0}) {
 							return
+						}
+					}
+					// the COUNT of signers reaches the threshold, the signatures do not: q-1 real ones padded with labels
+					if q-1 >= 1 && q <= n {
+						for _, pad := range []int{1, n - (q - 1)} {
+							if !yield(boundaryCase{s, n, kind, q - 1, pad}) {
+								return
+							}
 						}
 					}
 				}
@@ -148,7 +157,7 @@ func boundaryProp(c boundaryCase) common.Result {
 		if cerr != nil {
 			return common.Fail("harness", "combine: %v", cerr)
 		}
-		qc := hotstuff.NewQuorumCert(sig, b.View(), b.Hash())
+		qc := hotstuff.NewQuorumCert(padLabels(sig, ms, c), b.View(), b.Hash())
 		err = verifier.Auth.VerifyQuorumCert(qc)
 		quirk = func() bool { return kit.QuirkQC(verifier, qc) }
 	case "tc":
@@ -157,7 +166,7 @@ func boundaryProp(c boundaryCase) common.Result {
 		if cerr != nil {
 			return common.Fail("harness", "combine: %v", cerr)
 		}
-		tc := hotstuff.NewTimeoutCert(sig, v)
+		tc := hotstuff.NewTimeoutCert(padLabels(sig, ms, c), v)
 		err = verifier.Auth.VerifyTimeoutCert(tc)
 		quirk = func() bool { return kit.QuirkTC(verifier, tc) }
 	case "aggqc":
@@ -177,7 +186,7 @@ func boundaryProp(c boundaryCase) common.Result {
 		if cerr != nil {
 			return common.Fail("harness", "combine: %v", cerr)
 		}
-		agg := hotstuff.NewAggregateQC(qcs, sig, v)
+		agg := hotstuff.NewAggregateQC(qcs, padLabels(sig, ms, c), v)
 		_, err = verifier.Auth.VerifyAggregateQC(agg)
 		quirk = func() bool { return kit.QuirkAgg(verifier, agg) }
 	}
@@ -186,9 +195,50 @@ func boundaryProp(c boundaryCase) common.Result {
 		return common.Fail(kit.KnownBLS, "%s n=%d: %s with %d distinct valid signatures is rejected (%v) although the signature satisfies the verification equation in other arrangements", c.Scheme, c.N, c.Kind, c.K, err)
 	}
 	if accepted != (c.K >= q) {
-		return common.Fail("threshold:"+c.Kind, "%s n=%d q=%d: %s with %d distinct valid signatures: accepted=%v (err=%v)", c.Scheme, c.N, q, c.Kind, c.K, accepted, err)
+		return common.Fail("threshold:"+c.Kind, "%s n=%d q=%d: %s with %d distinct valid signatures and %d labels without a signature: accepted=%v (err=%v)", c.Scheme, c.N, q, c.Kind, c.K, c.Pad, accepted, err)
 	}
-	return common.OK(true, "", c.Kind, c.Scheme)
+	cls := []string{c.Kind, c.Scheme}
+	if c.Pad > 0 {
+		cls = append(cls, "padded-labels")
+	}
+	return common.OK(true, "", cls...)
+}
+
+// padLabels adds c.Pad signer labels of replicas that did not sign (the members after the first c.K) to a signature.
+func padLabels(sig hotstuff.QuorumSignature, ms []*kit.Member, c boundaryCase) hotstuff.QuorumSignature {
+	if c.Pad == 0 {
+		return sig
+	}
+	var extra []hotstuff.ID
+	for i := c.K; i < len(ms) && len(extra) < c.Pad; i++ {
+		extra = append(extra, ms[i].ID)
+	}
+	switch m := sig.(type) {
+	case crypto.Multi[*crypto.ECDSASignature]:
+		out := append(crypto.Multi[*crypto.ECDSASignature]{}, m...)
+		for _, id := range extra {
+			out = append(out, crypto.RestoreECDSASignature(nil, id))
+		}
+		return out
+	case crypto.Multi[*crypto.EDDSASignature]:
+		out := append(crypto.Multi[*crypto.EDDSASignature]{}, m...)
+		for _, id := range extra {
+			out = append(out, crypto.RestoreEDDSASignature(nil, id))
+		}
+		return out
+	case *crypto.BLS12AggregateSignature:
+		var bf crypto.Bitfield
+		m.Participants().ForEach(func(id hotstuff.ID) { bf.Add(id) })
+		for _, id := range extra {
+			bf.Add(id)
+		}
+		r, err := crypto.RestoreBLS12AggregateSignature(m.ToBytes(), bf)
+		if err != nil {
+			panic(err)
+		}
+		return r
+	}
+	return sig
 }
 
 
